@@ -23,13 +23,14 @@ Theorem C14_put_fault_contained :
 Proof. exact Faults.put_fault. Qed.
 Print Assumptions C14_put_fault_contained.
 
-(* whole histories from an empty directory, for every fault plan *)
+(* whole histories from an empty directory, for every fault plan and either choice of
+   pre_create_cas_dirs (a fault may also hit any mkdir of the fan-out tree: the open then fails) *)
 Theorem C14_fault_contained_partial :
   forall H : bytes -> bytes,
     (forall b, length (H b) = 32%nat) -> (forall b, Forall (fun x => x < 256) (H b)) ->
   forall cfg : config, 0 < c_n cfg ->
   forall (fault : option nat) (ops : list op),
-    c_pre cfg = false -> Forall (api_op cfg) ops -> NoCollide H (hist_contents ops) ->
+    Forall (api_op cfg) ops -> NoCollide H (hist_contents ops) ->
     let '(outs, hd', w') := run_hist H empty_fs fault (OpOpen cfg false :: ops) in
     (exists e, e <> EPanic /\ outs = OutErr e :: map (fun _ => OutClosed) ops /\ hd' = None)
     \/ (exists (os : option ostats) (outs1 : list out),
